@@ -1,6 +1,6 @@
 (* The hypotheses of the C13 theorems are satisfiable by non-trivial concrete states
    (and what the model computes on one of them). *)
-From FrameModel Require Import Num.QcTac Cases.Cmp Force.FR Force.FRFacts Cases.CmpC13.
+From FrameModel Require Import Num.QcTac Cases.Cmp Force.FR Force.FRFacts Force.FRSeq Force.FRSeqFacts Cases.CmpC13.
 Open Scope Qc_scope.
 
 (* die 8 x 4; a soft module that starts OUTSIDE the die, a fixed module, a terminal without
@@ -51,3 +51,64 @@ Example ex_select :
 Proof. vm_compute. reflexivity. Qed.
 Example ex_kappas_nonempty : kappas <> [].
 Proof. discriminate. Qed.
+
+(* ---- histories (Force/FRSeq.v) ---- *)
+(* a netlist with every centre in the 8 x 4 die, payloads that can be told apart *)
+Definition ex_nl2 : netlist nat unit :=
+  mkNl [mkMod (Some (qc 7 1, qc 1 1)) false 10%nat; mkMod (Some (qc 1 1, qc 1 1)) true 11%nat; mkMod None false 12%nat] tt.
+Definition ex_cost (s : netlist nat unit) : Qc :=
+  match modules s with {| centre := Some c |} :: _ => fst c | _ => 0 end.
+Definition ex_law (k : Qc) : law := fun i t pos v => ((k, - k), qc 2 1).
+(* the caller squares module 0, relocates, moves module 0 by hand, relocates twice more (force_algorithm last) *)
+Definition ex_ops : list (op nat unit) :=
+  [SetPayload 0 20%nat; Layout ex_force 2; SetCentre 0 (qc 2 1, qc 3 1); Copy; Layout ex_force 1;
+   Algo ex_law ex_cost [qc 1 1; qc 2 1; qc 1 2] 1].
+
+(* hypotheses of C13_seq_in_die *)
+Example ex_ops_in_die : Forall (op_in_die (qc 8 1) (qc 4 1)) ex_ops.
+Proof.
+  repeat (apply Forall_cons; [try exact I|]); [|apply Forall_nil].
+  unfold op_in_die, in_die; cbn [fst snd]. splits; apply Qcleb_true; vm_compute; reflexivity.
+Qed.
+Example ex_nl2_in_die : centres_in_die (qc 8 1) (qc 4 1) ex_nl2.
+Proof.
+  intros m c [<-|[<-|[<-|[]]]] Hc; cbn in Hc; inversion Hc; subst c;
+    unfold in_die; cbn [fst snd]; splits; apply Qcleb_true; vm_compute; reflexivity.
+Qed.
+Example ex_ops_has_call : Exists is_call ex_ops.
+Proof. right. left. exact I. Qed.
+(* hypothesis of C13_seq_only_centres: a history of relocation calls and copies *)
+Example ex_reloc_only : Forall is_reloc [Layout ex_force 2; Copy; Algo ex_law ex_cost [qc 1 1; qc 2 1] 1; Layout ex_force 0].
+Proof. repeat (apply Forall_cons; [exact I|]). apply Forall_nil. Qed.
+(* hypothesis of C13_seq_argmin *)
+Example ex_ks_nonempty : [qc 1 1; qc 2 1; qc 1 2] <> [].
+Proof. discriminate. Qed.
+
+(* what the model computes along ex_ops: payloads 20, 11, 12 throughout, the fixed module where it was, and
+   force_algorithm - whose cost is the x of module 0 - ends with the constant 1/2 that pushes it least to the right *)
+Example ex_history :
+  let s := run_ops (qc 8 1) (qc 4 1) ex_ops ex_nl2 in
+  (map payload (modules s), map is_fixed (modules s), nth_error (map centre (modules s)) 1) =
+  ([20; 11; 12]%nat, [false; true; false], Some (Some (qc 1 1, qc 1 1))) /\
+  Qceqb (best_kappa ex_law ex_cost (qc 8 1) (qc 4 1) 1
+           (run_ops (qc 8 1) (qc 4 1) (firstn 5 ex_ops) ex_nl2) [qc 1 1; qc 2 1; qc 1 2]) (qc 1 2) = true.
+Proof. vm_compute. split; reflexivity. Qed.
+
+(* ---- the history comparator (Cases/CmpC13.v): satisfiable, and it refuses a call that ignored the current values ---- *)
+Definition ex_cnl : cnl := mkNl (cmods [Some (qc 1 1, qc 1 1)] [false] [[qc 5 1]]) [].
+(* a layout of 0 iterations recorded from the centre (1,1) of an 8 x 4 die: final position (-3,-1) *)
+Example ex_hist_ok :
+  hist_ok (qc 8 1) (qc 4 1) (qc 1 1000) (qc 1 1000) ex_cnl
+    [HLayout 0 [] [(- qc 3 1, - qc 1 1)]; HCheck [Some (qc 1 1, qc 1 1)] [false] [[qc 5 1]] [];
+     HSetCentre 0 (qc 2 1, qc 2 1); HLayout 0 [] [(- qc 2 1, 0)]; HCheck [Some (qc 2 1, qc 2 1)] [false] [[qc 5 1]] []] = true.
+Proof. vm_compute. reflexivity. Qed.
+(* the same second call, but its trace starts from the OLD centre (a stale copy of the positions): refused *)
+Example ex_hist_stale :
+  hist_ok (qc 8 1) (qc 4 1) (qc 1 1000) (qc 1 1000) ex_cnl
+    [HLayout 0 [] [(- qc 3 1, - qc 1 1)]; HSetCentre 0 (qc 2 1, qc 2 1); HLayout 0 [] [(- qc 3 1, - qc 1 1)]] = false.
+Proof. vm_compute. reflexivity. Qed.
+(* a call after which a rectangle (payload) is found changed: refused *)
+Example ex_hist_dragged :
+  hist_ok (qc 8 1) (qc 4 1) (qc 1 1000) (qc 1 1000) ex_cnl
+    [HLayout 0 [] [(- qc 3 1, - qc 1 1)]; HCheck [Some (qc 1 1, qc 1 1)] [false] [[qc 6 1]] []] = false.
+Proof. vm_compute. reflexivity. Qed.
